@@ -530,6 +530,13 @@ impl PhysicalExpr for BinaryExpr {
     }
 
     fn nullable(&self, input_schema: &Schema) -> Result<bool> {
+        // IS [NOT] DISTINCT FROM never returns NULL
+        if matches!(
+            self.op,
+            Operator::IsDistinctFrom | Operator::IsNotDistinctFrom
+        ) {
+            return Ok(false);
+        }
         Ok(self.left.nullable(input_schema)? || self.right.nullable(input_schema)?)
     }
 
